@@ -77,3 +77,19 @@ Theorem C01_premises_met_by_slabs_and_faults : forall (F : Type) (NF : Num F) g 
   paint_len (line_to_feature g tape lf) /\ (line_nonrandom lf -> no_random (line_to_feature g tape lf)).
 Proof. intros F NF g tape lf. split; [apply line_paint_len | apply line_no_random]. Qed.
 Print Assumptions C01_premises_met_by_slabs_and_faults.
+
+(** models that call back the world (the "tian water content" composition models ask for the temperature of the whole
+    world at the query point): what they receive is what the public temperature query returns there, whenever painting a
+    temperature does not itself read that value - which holds for every feature of the model *)
+From WB Require Import Plume CallbackProofs.
+Theorem C01_callback_is_public_temperature : forall (F : Type) (NF : Num F) (w : @world F) pos depth,
+  Forall temp_ignores_wtemp (w_features w) ->
+  world_temperature w (mk_query w pos depth) = rmap fst (temperature3d w pos depth 0).
+Proof. intros F NF w pos depth H. exact (callback_is_public_temperature w pos depth H). Qed.
+Print Assumptions C01_callback_is_public_temperature.
+
+Theorem C01_callback_premise_met : forall (F : Type) (NF : Num F) g tape sph (a : @area_feature F) (pl : @plume_feature F) (lf : @line_feature F),
+  and (temp_ignores_wtemp (area_to_feature g tape sph a))
+      (and (temp_ignores_wtemp (plume_to_feature g tape sph pl)) (temp_ignores_wtemp (line_to_feature g tape lf))).
+Proof. intros. split; [apply area_temp_ignores | split; [apply plume_temp_ignores | apply line_temp_ignores]]. Qed.
+Print Assumptions C01_callback_premise_met.
